@@ -1,4 +1,5 @@
 """C05 -- representations are word homomorphisms (U1, HAD, INV, FOLD, CONJ, DU, W1)."""
+from ..rules import misc_rules as MI
 from ..rules import rep_rules as R
 from ..rules import cache_rules as CA
 from ..rules import sibling_rules as SI
@@ -32,6 +33,7 @@ def run(ctx):
     ctx.do(SI.rule_tp1)
     ctx.do(R.rule_zs1)
     ctx.do(R.rule_sym1)
+    ctx.do(MI.rule_invs1)
     ctx.do(R.rule_wp1)
     ctx.do(SI.rule_gen_order)
     ctx.do(SI.rule_elt1)
